@@ -20,6 +20,7 @@ import XsVerif.Lemmas.Tree
 import XsVerif.Lemmas.ContentOrder
 import XsVerif.Lemmas.DataElement
 import XsVerif.Lemmas.DefaultConv
+import XsVerif.Lemmas.JsonMLScoped
 
 namespace XsVerif.Props.C05
 open XsVerif.Conv
@@ -430,6 +431,173 @@ example : Dflt.WF1 {} idMapper abFacts exHd dfItems ∧ Dflt.Kids dfItems := by
 /-- … and the dictionary really collapses the run -/
 example : contentKeys (Dflt.enc {} idMapper abFacts "root" (Dflt.dec {} idMapper abFacts exHd dfItems))
     = ["a", "a", "b"] := by decide
+
+/-! ### documents whose elements (re)declare namespaces below the root
+
+  With namespace declarations on nested elements the converter's name mapping is no longer one function per
+  document: `set_xmlns_context` (namespaces.py:192-251) pushes an element's declarations when the element is
+  entered and restores the saved map when it is left (one context at a time on decode, possibly several at once
+  on encode).  `decTreeS`/`encTreeS` (Model/Converters.lean) are the recursion of the validators with the
+  discipline this implements — the mapping seen by an element is a function of the declarations written on its
+  ancestors-or-self, whatever its earlier siblings and their descendants declared — and the theorems below lift
+  the one-level round trips to whole documents under that discipline, for every family of mappers indexed by
+  the declarations in scope.  The harness checks on the real converters that the mapping of every
+  `element_decode`/`element_encode` call IS a function of that lexical scope (one table per scope, a second
+  answer for the same scope is a mismatch) and replays the document through `decTreeS`/`encTreeS`. -/
+
+/-- **JsonML, whole documents with nested namespace declarations** (namespaces processed): for every family of
+    name mappers indexed by the declarations in scope and every typed tree of ElementData tuples (any depth, any
+    width, any placement of declarations) whose levels are admissible in their own scope, encoding the decoded data
+    gives the tree back up to the documented normalisations.  An element's own name and attribute names are
+    un-mapped in the element's scope, a child's name in the scope extended with the child's declarations
+    (jsonml.py:126-131) — so a child may be written with a prefix that only the child declares.  Later siblings
+    are encoded in the scope of their parent: nothing that an earlier sibling or its descendants declare is
+    visible to them. -/theorem jsonml_roundtrip_scoped (m : NsScope → Mapper) (sch : Nat → Option Facts) (sc : NsScope) (n : Node)
+    (hw : TreeWFS (fun sc f hd sh => JsonML.WF1K (m sc) f hd sh) sch sc n) (fuel : Nat) (hfuel : n.depth ≤ fuel) :
+    encTreeS (JsonML.sconv m) sch fuel sc n.f n.hd.tag (decTreeS (JsonML.sconv m) sc n)
+      = .ok (normTree (fun {_} f hd its => JsonML.norm1 true f hd its) n) :=
+  (tree_rt_scoped (JsonML.sconv m) (JsonML.jsonml_scopedOK m) sch n sc hw fuel hfuel).1
+
+/-- a name mapping given by a table `[(extended, prefixed)…]` (names not listed map to themselves) -/
+def tblMapper (t : List (String × String)) : Mapper :=
+  let mp := fun k => match t.find? (·.1 == k) with | some p => p.2 | none => k
+  let um := fun k => match t.find? (·.2 == k) with | some p => p.1 | none => k
+  ⟨mp, um, um⟩
+
+def sRoot : NsScope := [("", "urn:t")]
+def sA : NsScope := [("p", "urn:t"), ("", "")] ++ sRoot
+def sB : NsScope := [("q", "urn:q")] ++ sA
+
+/-- under the root's declarations names of `urn:t` are written without prefix; inside `a` (which re-binds the
+    default namespace and declares `p`) with the prefix `p` -/
+def exM : NsScope → Mapper := fun sc =>
+  if sc = sRoot then tblMapper [("{urn:t}root", "root"), ("{urn:t}a", "a"), ("{urn:t}b", "b"), ("{urn:t}c", "c")]
+  else tblMapper [("{urn:t}a", "p:a"), ("{urn:t}b", "p:b"), ("{urn:t}c", "p:c")]
+
+def leafF : Facts :=
+  { hasGroup := false, simple := true, mixed := false, emptyContent := false, complex := false,
+    singleGroup := false, isList := false, anyType := false, attrs := [], children := [] }
+def aF : Facts :=
+  { hasGroup := true, simple := false, mixed := false, emptyContent := false, complex := true,
+    singleGroup := true, isList := false, anyType := false, attrs := [],
+    children := [{ name := "{urn:t}b", ty := 0, single := true }] }
+def rootF : Facts :=
+  { hasGroup := true, simple := false, mixed := false, emptyContent := false, complex := true,
+    singleGroup := true, isList := false, anyType := false, attrs := [],
+    children := [{ name := "{urn:t}a", ty := 1, single := true }, { name := "{urn:t}c", ty := 0, single := true }] }
+def exSch : Nat → Option Facts
+  | 0 => some leafF
+  | 1 => some aF
+  | _ => none
+
+def nB : Node := .mk leafF { tag := "{urn:t}b", text := some (.atom "i" "10"), attrs := [], xmlns := [("q", "urn:q")] } .nil
+def nA : Node := .mk aF { tag := "{urn:t}a", text := none, attrs := [], xmlns := [("p", "urn:t"), ("", "")] }
+  (.child "{urn:t}b" true nB .nil)
+def nC : Node := .mk leafF { tag := "{urn:t}c", text := some (.atom "i" "20"), attrs := [], xmlns := [] } .nil
+def exDoc : Node := .mk rootF { tag := "{urn:t}root", text := none, attrs := [], xmlns := [("", "urn:t")] }
+  (.child "{urn:t}a" true nA (.child "{urn:t}c" true nC .nil))
+
+example : decTreeS (JsonML.sconv exM) [] exDoc =
+    .list [.atom "s" "root", .dict [("xmlns", .atom "s" "urn:t")],
+      .list [.atom "s" "p:a", .dict [("xmlns:p", .atom "s" "urn:t"), ("xmlns", .atom "s" "")],
+        .list [.atom "s" "p:b", .dict [("xmlns:q", .atom "s" "urn:q")], .atom "i" "10"]],
+      .list [.atom "s" "c", .atom "i" "20"]] := by
+  simp [decTreeS, decItemsS, exDoc, nA, nB, nC, JsonML.sconv, JsonML.dec, JsonML.header, JsonML.decAttrs,
+    JsonML.attrPairs, JsonML.textPart, JsonML.itemJ, exM, sRoot, NsScope.push, tblMapper, dictUpdate, dictSet,
+    xmlnsEntries, J.isNull, rootF, aF, leafF]
+
+theorem wf1K_noAttrs {α : Type} (m : Mapper) (f : Facts) (tag : String) (text : Option J)
+    (x : List (String × String)) (its : List (Item α))
+    (htag : m.um (m.mp tag) = tag)
+    (hx : ((xmlnsEntries "" x).map (·.1)).Nodup)
+    (htext : ∀ t, text = some t → t.isMap = false ∧ t.isNull = false ∧ t.isSeq = false)
+    (halone : text.isSome = true → its = [])
+    (hg : f.hasGroup = !f.simple) (hs : f.simple = true → its = []) (he : f.emptyContent = true → its = [])
+    (hc : ∀ i v, Item.cdata i v ∈ its → v.isSeq = false ∧ v.isMap = false) :
+    JsonML.WF1K m f { tag, text, attrs := [], xmlns := x } its :=
+  { tag := htag, attrsUm := by simp, attrsNodup := by simp [JsonML.attrPairs], attrsNodup' := by simp,
+    attrsNotXmlns := by simp, xmlnsNodup := hx,
+    textOk := fun t h => ⟨(htext t h).1, (htext t h).2.1⟩, textStr := fun t h _ => (htext t h).2.2,
+    textAlone := halone, groupIff := hg, simpleNoItems := hs, emptyNoItems := he, cdataStr := hc }
+
+/-- non-vacuity of `jsonml_roundtrip_scoped`: the document
+    `<root xmlns="urn:t"><p:a xmlns:p="urn:t" xmlns=""><p:b xmlns:q="urn:q">10</p:b></p:a><c>20</c></root>`
+    (declarations nested two deep, the outer one re-binding the default namespace, followed by a later sibling
+    that relies on the root's default namespace) meets the hypotheses -/
+example : TreeWFS (fun sc f hd sh => JsonML.WF1K (exM sc) f hd sh) exSch [] exDoc := by
+  have hb : JsonML.WF1K (exM sB) leafF { tag := "{urn:t}b", text := some (.atom "i" "10"), attrs := [], xmlns := [("q", "urn:q")] }
+      ([] : List (Item Unit)) :=
+    wf1K_noAttrs _ _ _ _ _ _ (by decide) (by simp [xmlnsEntries]) (by intro t h; cases h; exact ⟨rfl, rfl, rfl⟩)
+      (fun _ => rfl) rfl (fun _ => rfl) (fun _ => rfl) (by intro i v h; simp at h)
+  have hc : JsonML.WF1K (exM sRoot) leafF { tag := "{urn:t}c", text := some (.atom "i" "20"), attrs := [], xmlns := [] }
+      ([] : List (Item Unit)) :=
+    wf1K_noAttrs _ _ _ _ _ _ (by decide) (by simp [xmlnsEntries]) (by intro t h; cases h; exact ⟨rfl, rfl, rfl⟩)
+      (fun _ => rfl) rfl (fun _ => rfl) (fun _ => rfl) (by intro i v h; simp at h)
+  have ha : JsonML.WF1K (exM sA) aF { tag := "{urn:t}a", text := none, attrs := [], xmlns := [("p", "urn:t"), ("", "")] }
+      [Item.child "{urn:t}b" true ()] :=
+    wf1K_noAttrs _ _ _ _ _ _ (by decide) (by simp [xmlnsEntries]) (by intro t h; cases h)
+      (by simp) rfl (by simp [aF]) (by simp [aF]) (by intro i v h; simp at h)
+  have hr : JsonML.WF1K (exM sRoot) rootF { tag := "{urn:t}root", text := none, attrs := [], xmlns := [("", "urn:t")] }
+      [Item.child "{urn:t}a" true (), Item.child "{urn:t}c" true ()] :=
+    wf1K_noAttrs _ _ _ _ _ _ (by decide) (by simp [xmlnsEntries]) (by intro t h; cases h)
+      (by simp) rfl (by simp [rootF]) (by simp [rootF]) (by intro i v h; simp at h)
+  refine ⟨hr, ⟨rfl, ⟨{ name := "{urn:t}a", ty := 1, single := true }, by simp [findChild, rootF], rfl⟩,
+    ⟨ha, ⟨rfl, ⟨{ name := "{urn:t}b", ty := 0, single := true }, by simp [findChild, aF], rfl⟩, ⟨hb, trivial⟩, trivial⟩⟩,
+    ⟨rfl, ⟨{ name := "{urn:t}c", ty := 0, single := true }, by simp [findChild, rootF], rfl⟩, ⟨hc, trivial⟩, trivial⟩⟩⟩
+
+
+theorem de_enc_xmlns (m : Mapper) (f : Facts) (nm : String) (v : J) (hd : Hd) (its : List (Item J))
+    (h : DE.enc m f nm v = .ok (hd, its)) : hd.xmlns = DE.xmlnsOfObj v := by
+  unfold DE.enc at h
+  split at h
+  · split at h
+    · cases h
+    · split at h
+      · cases h; rfl
+      · split at h
+        · simp only [bind, Except.bind] at h
+          split at h
+          · cases h
+          · cases h; rfl
+        · simp only [bind, Except.bind] at h
+          split at h
+          · cases h
+          · cases h; rfl
+  · cases h
+
+theorem de_xmlnsR (v v' : J) (h : DE.R v v') : DE.xmlnsOfObj v' = DE.xmlnsOfObj v := by
+  rcases h with rfl | ⟨t, rfl⟩
+  · rfl
+  · cases v <;> rfl
+
+theorem dataelement_scopedOK (m : NsScope → Mapper) :
+    ScopedOK (DE.sconv m) (fun _ => DE.Inv) (fun sc f hd sh => DE.WF1 (m sc) f hd sh)
+      (fun {_} f hd its => DE.norm1 f hd its) DE.R :=
+  ScopedOK.ofLevel (c := DE.sconv m) (fun sc => dataelement_levelOK (m sc))
+    (fun sc f nm v hd its h => de_enc_xmlns (m sc) f nm v hd its h)
+    (fun _ _ _ => rfl) de_xmlnsR
+
+/-- **DataElement, whole documents with nested namespace declarations**: the same lifting for the
+    DataElementConverter (tags are extended names, attribute names are mapped in the element's scope, the
+    declarations are the element's `xmlns` attribute) — at full strength, for every family of mappers and every
+    placement of declarations. -/
+theorem dataelement_roundtrip_scoped (m : NsScope → Mapper) (sch : Nat → Option Facts) (sc : NsScope) (n : Node)
+    (hw : TreeWFS (fun sc f hd sh => DE.WF1 (m sc) f hd sh) sch sc n) (fuel : Nat) (hfuel : n.depth ≤ fuel) :
+    encTreeS (DE.sconv m) sch fuel sc n.f n.hd.tag (decTreeS (DE.sconv m) sc n)
+      = .ok (normTree (fun {_} f hd its => DE.norm1 f hd its) n) :=
+  (tree_rt_scoped (DE.sconv m) (dataelement_scopedOK m) sch n sc hw fuel hfuel).1
+
+/-- non-vacuity of `dataelement_roundtrip_scoped`: the decoded DataElements of `exDoc` carry the declarations of
+    each level, and the tree comes back -/
+example : decTreeS (DE.sconv exM) [] exDoc =
+    .elem "{urn:t}root" .null [] [
+      .elem "{urn:t}a" .null [] [.elem "{urn:t}b" (.atom "i" "10") [] [] .null [("q", "urn:q")]] .null
+        [("p", "urn:t"), ("", "")],
+      .elem "{urn:t}c" (.atom "i" "20") [] [] .null []] .null [("", "urn:t")] := by
+  have hd : ∀ s, s ∈ ["{urn:t}a", "{urn:t}b", "{urn:t}c", "p:a", "p:b", "p:c", "a", "b", "c"] → DE.isDigits s = false := by
+    decide
+  simp [decTreeS, decItemsS, exDoc, nA, nB, nC, DE.sconv, DE.conv, DE.dec, DE.decLoop, DE.decStep, DE.decAttrs, exM, sRoot,
+    NsScope.push, tblMapper, dictUpdate, rootF, aF, leafF, hd]
 
 /-! ### content re-ordering helpers of the encoder (models.py:819-949)
 
